@@ -152,6 +152,11 @@ def run_deductive(spec, res, tier):
                            in_ledger=base is not None, source_changed=(base is not None and not same_src))
                 if base is not None and not same_src:
                     res.violations.append(rec)       # used to be proved, source changed, now fails
+                elif base is None and [k_ for k_ in ledger if k_.startswith(o.name.split('#')[0] + '#')]:
+                    # a NEW obligation of a function that was proved on the baseline (e.g. an implicit-exception obligation that did
+                    # not exist there) and is not proved now: a violation only if a failing input replays on the real code -- the
+                    # solver's counterexample if there is one, otherwise a search of that function's bounded oracle (decided in main)
+                    res.violations.append(dict(rec, needs_confirmation=True))
                 else:
                     res.undecided.append(dict(rec, why='not proved and no proved baseline for a changed source'))
             if len(res.samples) < 12 and (res.obligations % 7 == 1 or r['verdict'] != 'proved'):
@@ -375,6 +380,9 @@ def main(pid, tier, seed, replay=None):
             if w:
                 v['replayed'] = w
                 v['confirmed'] = True
+            elif v.get('needs_confirmation'):
+                res.undecided.append(dict(v, why='refuted by the solver but the counterexample does not replay on the real code'))
+                continue
             else:
                 v['confirmed'] = False
         final_viol.append(v)
